@@ -310,6 +310,8 @@ def configs(tier):
     # weights with every preprocessing step that copies the data switched off / on
     add("h_frame", "frame|2d-p3|weights|center=False|transform", struct="2d-p3", op="transform", flags={"center": False}, weights=True)
     add("h_frame", "frame|2d-p3|weights|transform", struct="2d-p3", op="transform", weights=True)
+    for op in ("bootstrapper", "rotator", "queries"):
+        add("h_frame", f"frame|2d-p3|center=False|{op}", struct="2d-p3", op=op, flags={"center": False})
     add("h_frame", "frame|dataset|weights|center=False|transform", struct="dataset", op="transform", flags={"center": False}, weights=True)
     pairs = [("2d", "2d"), ("2d", "2d-p3"), ("2d-p3", "3d"), ("3d", "2d"), ("dataset", "2d"), ("2d", "list"), ("list", "list"), ("multiindex", "2d"), ("2d", "multiindex")]
     for s1, s2 in pairs:
